@@ -512,3 +512,73 @@ pub fn random_composition(samples: &[Sample], rng: &mut Rng, annotate: bool) -> 
     let multi = rng.chance(1, 2);
     compose(samples, &picks, multi, annotate, true)
 }
+
+/// A seeded small mutation of a repository sample: one or all occurrences of a primitive type
+/// name replaced by another, a literal replaced, or one line duplicated/dropped.  Most mutants
+/// are rejected by the checker — the verdict must be the same under every configuration.
+pub fn mutate_sample(s: &Sample, rng: &mut Rng, annotate: bool) -> Program {
+    let prims = ["Int", "Str", "Bool", "Float"];
+    let mut text = s.text.clone();
+    let kind = rng.below(5);
+    match kind {
+        0 | 1 => {
+            let from = *rng.pick(&prims);
+            let mut to = *rng.pick(&prims);
+            if to == from {
+                to = if from == "Int" { "Str" } else { "Int" };
+            }
+            // positions of whole-word occurrences
+            let mut pos = vec![];
+            let b = text.as_bytes();
+            let mut i = 0;
+            while let Some(j) = text[i..].find(from) {
+                let st = i + j;
+                let en = st + from.len();
+                let before_ok = st == 0 || !is_ident_char(b[st - 1] as char);
+                let after_ok = en >= b.len() || !is_ident_char(b[en] as char);
+                if before_ok && after_ok {
+                    pos.push(st);
+                }
+                i = en;
+            }
+            if !pos.is_empty() {
+                if kind == 0 {
+                    let st = *rng.pick(&pos);
+                    text.replace_range(st..st + from.len(), to);
+                } else {
+                    let mut map = BTreeMap::new();
+                    map.insert(from.to_string(), to.to_string());
+                    text = rename_idents(&text, &map);
+                }
+            }
+        }
+        2 => {
+            // make one written type a union with another primitive
+            let from = *rng.pick(&prims);
+            let other = *rng.pick(&prims);
+            if other != from {
+                if let Some(st) = text.find(&format!(": {from}")) {
+                    text.replace_range(st..st + 2 + from.len(), &format!(": {{{from}, {other}}}"));
+                }
+            }
+        }
+        3 => {
+            let lines: Vec<&str> = text.lines().collect();
+            if lines.len() > 1 {
+                let k = rng.below(lines.len() as u64) as usize;
+                let mut out: Vec<String> = lines.iter().map(|l| l.to_string()).collect();
+                out.insert(k, lines[k].to_string());
+                text = out.join("\n") + "\n";
+            }
+        }
+        _ => {
+            let lines: Vec<&str> = text.lines().collect();
+            if lines.len() > 2 {
+                let k = rng.below(lines.len() as u64) as usize;
+                let out: Vec<String> = lines.iter().enumerate().filter(|(i, _)| *i != k).map(|(_, l)| l.to_string()).collect();
+                text = out.join("\n") + "\n";
+            }
+        }
+    }
+    Program { files: vec![SrcFile { path: "a.mamba".into(), text }], annotate, features: vec![], label: format!("mutant[{}] of {}", kind, s.label) }
+}
